@@ -265,7 +265,7 @@ theorem single_block_load (c : Codec) (signals : Array SigEnc) (i : Nat) (s : Si
     · rw [h]; simp [meta_roundtrip_plain]
     · rw [h]; simp [(meta_roundtrip_compressed s.maxStates s.dataBytes.length (by rw [hdata]; exact hlen)).1]
   have hfuel : cs.length < s.dataBytes.length + 1 := by rw [hdata]; have := encStream_length cs; omega
-  simp only [loadSignal, collectMeta, collectMeta.go, ho', hsl, lebRead_lebWrite, hmeta, List.reverse_cons, List.reverse_nil,
+  simp only [loadSignal, loadStep, joinAll, collectMeta, collectMeta.go, ho', hsl, lebRead_lebWrite, hmeta, List.reverse_cons, List.reverse_nil,
     List.nil_append, List.map_cons, List.map_nil, List.foldl_cons, List.foldl_nil]
   rcases hcomp with h | h
   · subst h
@@ -843,7 +843,7 @@ theorem single_block_load_onebit (c : Codec) (signals : Array SigEnc) (i : Nat) 
     · rw [h]; simp [meta_roundtrip_plain]
     · rw [h]; simp [(meta_roundtrip_compressed s.maxStates s.dataBytes.length (by rw [hdata]; exact hlen)).1]
   have hfuel : cs.length < s.dataBytes.length + 1 := by rw [hdata]; have := encOneBit_length cs; omega
-  simp only [loadSignal, collectMeta, collectMeta.go, ho', hsl, lebRead_lebWrite, hmeta, List.reverse_cons, List.reverse_nil,
+  simp only [loadSignal, loadStep, joinAll, collectMeta, collectMeta.go, ho', hsl, lebRead_lebWrite, hmeta, List.reverse_cons, List.reverse_nil,
     List.nil_append, List.map_cons, List.map_nil, List.foldl_cons, List.foldl_nil]
   rcases hcomp with h | h
   · subst h
@@ -946,5 +946,194 @@ theorem vcd_onebit_block_roundtrip (c : Codec) (signals : Array SigEnc) (i : Nat
     rw [Nat.shiftLeft_eq]; omega
   refine ⟨cs, hdl, hv, ?_⟩
   exact single_block_load_onebit c signals i s tt t0 cs hs hd' hcsne hcs (by rw [← hd']; exact hlen)
+
+end Wellen.Store
+
+namespace Wellen.Store
+open Wellen.Bits
+
+/-! ### several blocks: segmentation does not alter the data -/
+
+/-- one block of a store: the per-signal encoders it was finished from and its time table -/
+structure BlockDesc where
+  signals : Array SigEnc
+  tt : List Nat
+  t0 : Nat
+
+def mkBlock (c : Codec) (d : BlockDesc) : Block :=
+  let r := finishSignals c d.signals
+  { startTime := d.t0, timeTable := d.tt, offsets := r.2.1, data := r.2.2 }
+
+theorem layoutOffsets_none (ds : List (Option (List Nat))) : ∀ (k i : Nat), ds[i]? = some none → (layoutOffsets k ds)[i]? = some none := by
+  induction ds with
+  | nil => intro k i h; simp at h
+  | cons x r ih =>
+    intro k i h
+    cases i with
+    | zero => simp at h; subst h; simp [layoutOffsets]
+    | succ i =>
+      simp only [List.getElem?_cons_succ] at h
+      cases x with
+      | none => simpa [layoutOffsets] using ih k i h
+      | some y => simpa [layoutOffsets] using ih (k + y.length) i h
+
+/-- a signal without data in a block has no offset entry -/
+theorem block_no_data (c : Codec) (d : BlockDesc) (i : Nat) (s : SigEnc) (hs : d.signals.toList[i]? = some s)
+    (he : s.dataBytes = []) : (mkBlock c d).offsetAndLength i = none := by
+  have hfin : (finishSignal c s).2 = none := by simp [finishSignal, he]
+  obtain ⟨h1, _⟩ := finishSignals_layout c d.signals
+  have hd : (d.signals.toList.map fun s => (finishSignal c s).2)[i]? = some none := by
+    rw [List.getElem?_map, hs]; simp [hfin]
+  have := layoutOffsets_none _ 0 i hd
+  simp only [mkBlock, Block.offsetAndLength, h1]
+  rw [List.getD_eq_getElem?_getD, this]
+  rfl
+
+/-- the decoded compression field of a block's meta word -/
+def compOf (c : Codec) (data : List Nat) : Option Nat :=
+  if data.length < c.minSize then none else if c.wantCompress data then some (divCeil data.length 32 * 32) else none
+
+/-- a signal with data: its offset entry selects meta word + data, and the meta word decodes to its widest kind -/
+theorem block_with_data (c : Codec) (d : BlockDesc) (i : Nat) (s : SigEnc) (hs : d.signals.toList[i]? = some s)
+    (hne : s.dataBytes ≠ []) (hlen : divCeil s.dataBytes.length 32 < 2 ^ 32) :
+    ∃ off len m, (mkBlock c d).offsetAndLength i = some (off, len) ∧
+      ((mkBlock c d).data.drop off).take len = lebWrite m ++ s.dataBytes ∧
+      metaDecode m = some (s.maxStates, compOf c s.dataBytes) := by
+  have hdata : s.dataBytes.isEmpty = false := by simpa using hne
+  -- the three cases of `finish_signal`
+  have key : ∃ m, (finishSignal c s).2 = some (lebWrite m ++ s.dataBytes) ∧ metaDecode m = some (s.maxStates, compOf c s.dataBytes) := by
+    unfold finishSignal compOf
+    simp only [hdata, Bool.false_eq_true, ↓reduceIte]
+    by_cases hmin : s.dataBytes.length < c.minSize
+    · simp only [hmin, ↓reduceIte]
+      exact ⟨_, rfl, meta_roundtrip_plain _⟩
+    · simp only [hmin, ↓reduceIte]
+      by_cases hw : c.wantCompress s.dataBytes = true
+      · simp only [hw, ↓reduceIte]
+        exact ⟨_, rfl, (meta_roundtrip_compressed s.maxStates s.dataBytes.length hlen).1⟩
+      · simp only [hw, Bool.false_eq_true, ↓reduceIte]
+        exact ⟨_, rfl, meta_roundtrip_plain _⟩
+  obtain ⟨m, hfin, hdec⟩ := key
+  have hd : (d.signals.toList.map fun s => (finishSignal c s).2)[i]? = some (some (lebWrite m ++ s.dataBytes)) := by
+    rw [List.getElem?_map, hs]; simp [hfin]
+  obtain ⟨off, len, ho, hsl⟩ := block_slice c d.signals i _ hd
+  exact ⟨off, len, m, ho, hsl, hdec⟩
+
+end Wellen.Store
+
+namespace Wellen.Store
+open Wellen.Bits
+
+abbrev Change := Nat × States × List Nat
+
+/-- what is known about signal `i` in one block: its encoder, and the changes whose chunk stream it recorded (possibly none) -/
+def SigInBlock (bits i : Nat) (p : BlockDesc × SigEnc × List Change) : Prop :=
+  p.1.signals.toList[i]? = some p.2.1 ∧ p.2.1.dataBytes = encStream p.2.2 ∧
+  (∀ x ∈ p.2.2, x.2.2.length = divCeil bits x.2.1.bib ∧ ((x.1 <<< 2) ||| x.2.1.toNat) < 2 ^ 32) ∧
+  divCeil p.2.1.dataBytes.length 32 < 2 ^ 32
+
+/-- the meta data `collect_signal_meta_data` gathers: one entry per block in which the signal has data -/
+def metasOf (c : Codec) : List (BlockDesc × SigEnc × List Change) → Nat → List (Nat × List Nat × States × Option Nat)
+  | [], _ => []
+  | p :: r, off =>
+    (if p.2.2 = [] then [] else [(off, p.2.1.dataBytes, p.2.1.maxStates, compOf c p.2.1.dataBytes)]) ++
+      metasOf c r (off + p.1.tt.length)
+
+theorem encStream_eq_nil (cs : List Change) : encStream cs = [] ↔ cs = [] := by
+  constructor
+  · intro h
+    cases cs with
+    | nil => rfl
+    | cons c0 r =>
+      have := encStream_length (c0 :: r)
+      rw [h] at this; simp at this
+  · intro h; subst h; rfl
+
+theorem collectMeta_go (c : Codec) (bits i : Nat) (l : List (BlockDesc × SigEnc × List Change)) :
+    (∀ p ∈ l, SigInBlock bits i p) → ∀ (off : Nat) (acc : List (Nat × List Nat × States × Option Nat)),
+    collectMeta.go i (l.map fun p => mkBlock c p.1) off acc = some (acc.reverse ++ metasOf c l off) := by
+  induction l with
+  | nil => intro _ off acc; simp [collectMeta.go, metasOf]
+  | cons p r ih =>
+    intro h off acc
+    obtain ⟨hs, hdata, hcs, hlen⟩ := h p (by simp)
+    have ih' := ih (fun q hq => h q (by simp [hq]))
+    simp only [List.map_cons, collectMeta.go]
+    by_cases he : p.2.2 = []
+    · have hnil : p.2.1.dataBytes = [] := by rw [hdata, he]; rfl
+      rw [block_no_data c p.1 i p.2.1 hs hnil]
+      simp only [show (mkBlock c p.1).timeTable = p.1.tt from rfl]
+      rw [ih' _ acc]
+      simp [metasOf, he]
+    · have hne : p.2.1.dataBytes ≠ [] := by rw [hdata]; exact fun h => he ((encStream_eq_nil _).mp h)
+      obtain ⟨o, len, m, ho, hsl, hdec⟩ := block_with_data c p.1 i p.2.1 hs hne hlen
+      rw [ho]
+      simp only [hsl, lebRead_lebWrite, hdec, show (mkBlock c p.1).timeTable = p.1.tt from rfl]
+      rw [ih' _ _]
+      simp [metasOf, he]
+
+/-- the loader's fold over the collected blocks, for a multi-bit signal -/
+def replayBlocks (bits : Nat) (sigS : States) : List (BlockDesc × SigEnc × List Change) → Nat → Acc → Acc
+  | [], _, a => a
+  | p :: r, off, a => replayBlocks bits sigS r (off + p.1.tt.length) (replayFixed bits sigS p.2.2 off a).2
+
+theorem fold_metas (c : Codec) (bits : Nat) (hb : bits ≠ 1) (sigS : States) (l : List (BlockDesc × SigEnc × List Change)) (i : Nat) :
+    (∀ p ∈ l, SigInBlock bits i p) → ∀ (off : Nat) (a : Acc),
+    (metasOf c l off).foldl (loadStep (.bitvec bits) sigS) (some a) =
+      some (replayBlocks bits sigS l off a) := by
+  induction l with
+  | nil => intro _ off a; simp [metasOf, replayBlocks]
+  | cons p r ih =>
+    intro h off a
+    obtain ⟨hs, hdata, hcs, hlen⟩ := h p (by simp)
+    have ih' := ih (fun q hq => h q (by simp [hq]))
+    simp only [metasOf, replayBlocks]
+    by_cases he : p.2.2 = []
+    · simp only [he, ↓reduceIte, List.nil_append]
+      rw [ih' _ a]
+      simp [replayFixed]
+    · simp only [he, ↓reduceIte, List.cons_append, List.nil_append, List.foldl_cons]
+      have hfuel : p.2.2.length < p.2.1.dataBytes.length + 1 := by
+        rw [hdata]; have := encStream_length p.2.2; omega
+      have hload : loadFixed bits sigS (p.2.1.dataBytes.length + 1) p.2.1.dataBytes off a = some (replayFixed bits sigS p.2.2 off a).2 := by
+        rw [hdata]; exact loadFixed_stream bits hb sigS p.2.2 hcs _ off a (by rw [← hdata]; exact hfuel)
+      cases hco : compOf c p.2.1.dataBytes with
+      | none => simp only [loadStep, hload]; exact ih' _ _
+      | some n =>
+        have hn : ¬ n < p.2.1.dataBytes.length := by
+          unfold compOf at hco
+          split at hco
+          · cases hco
+          · split at hco
+            · cases hco
+              have := (meta_roundtrip_compressed p.2.1.maxStates p.2.1.dataBytes.length hlen).2
+              omega
+            · cases hco
+        simp only [loadStep, hn, ↓reduceIte, hload]; exact ih' _ _
+
+end Wellen.Store
+
+namespace Wellen.Store
+open Wellen.Bits
+
+/-- the widest kind over the blocks in which the signal has data -/
+def joinedStates (c : Codec) (l : List (BlockDesc × SigEnc × List Change)) : States :=
+  joinAll ((metasOf c l 0).map (fun b => b.2.2.1))
+
+/-- **segmentation does not alter the data**: for ANY number of blocks (each finished from its own set of encoders, each with
+its own compression decision), a multi-bit signal is loaded as the concatenation of the changes recorded in each block, the
+time indices of block k shifted by the lengths of the earlier blocks' time tables, all entries aligned to the widest kind -/
+theorem multi_block_load (c : Codec) (bits : Nat) (hb : bits ≠ 1) (i : Nat) (l : List (BlockDesc × SigEnc × List Change))
+    (h : ∀ p ∈ l, SigInBlock bits i p) :
+    loadSignal { blocks := l.map fun p => mkBlock c p.1 } i (.bitvec bits) =
+      some { maxStates := joinedStates c l,
+             times := (replayBlocks bits (joinedStates c l) l 0 {}).timesRev.reverse,
+             entries := (replayBlocks bits (joinedStates c l) l 0 {}).entriesRev.reverse } := by
+  have hgo := collectMeta_go c bits i l h 0 []
+  simp only [List.reverse_nil, List.nil_append] at hgo
+  have hfold := fold_metas c bits hb (joinedStates c l) l i h 0 {}
+  simp only [loadSignal, collectMeta, hgo]
+  unfold joinedStates at hfold ⊢
+  rw [hfold]
 
 end Wellen.Store
